@@ -216,3 +216,268 @@ Qed.
 
 Lemma operands_ok_kind o k a b : operands_ok o k a b = true -> op_kind_ok o k = true.
 Proof. unfold operands_ok, op_kind_ok. intros H. apply andb_true_iff in H; tauto. Qed.
+
+(* ------------------------------------------------ A op B, A op s, s op A *)
+
+
+Lemma elementwise_pointwise_result o sh ops sem :
+  elem_typecheck o ops = Some true ->
+  forallb (shape_ok sh) ops = true -> forallb wf_val ops = true -> wf_shape sh ->
+  (forall en i, op_sem o (map (value_at en i) ops) = sem en i) ->
+  pointwise_result (elementwise o sh ops) (kind_of_op o) sh sem.
+Proof.
+  intros TC SH WF WS SEM.
+  destruct (elementwise_total o sh ops TC SH WF WS) as [r Hr].
+  destruct (elementwise_spec o sh ops r WS Hr) as [data [E [L PW]]].
+  exists data. rewrite Hr, E. split; [reflexivity|]. split; [exact L|].
+  intros i Hi. destruct (PW i Hi) as [args [_ [N EV]]].
+  exists (mk_node o args). split; [exact N|]. intros en. rewrite EV. apply SEM.
+Qed.
+
+Theorem binop_pointwise o same a b k sh :
+  operands_ok o k a b = true ->
+  is_arr a || is_arr b = true ->
+  wf_val a = true -> wf_val b = true ->
+  shape_ok sh a = true -> shape_ok sh b = true ->
+  pointwise_result (py_binop o same a b) (pyop_result_kind o) sh
+    (fun en i => pyop_sem o k (value_at en i a) (value_at en i b)).
+Proof.
+  intros OK AR WFa WFb SHa SHb.
+  pose proof (operands_ok_kind _ _ _ _ OK) as KO.
+  destruct a as [ea|ka sha da].
+  - destruct b as [eb|kb shb db]; [discriminate|].
+    simpl in SHb. apply shape_eqb_eq in SHb. subst shb.
+    pose proof (wf_val_wf_shape _ _ _ WFb) as WS.
+    rewrite binop_array_right with (k := k) by exact OK.
+    destruct (is_compare o) eqn:IC.
+    + replace (pyop_result_kind o) with (kind_of_op (node_op (swap_op o) k))
+        by (rewrite node_op_kind by (rewrite swap_op_kind_ok; exact KO); apply swap_op_result_kind).
+      apply elementwise_pointwise_result; auto.
+      * apply tc_ok_swapped; exact OK.
+      * simpl. rewrite shape_eqb_refl. reflexivity.
+      * simpl. simpl in WFb. rewrite WFb. reflexivity.
+      * intros en i. simpl map. apply node_op_sem_swapped; assumption.
+    + rewrite <- (node_op_kind o k) by exact KO.
+      apply elementwise_pointwise_result; auto.
+      * apply tc_ok; exact OK.
+      * simpl. rewrite shape_eqb_refl. reflexivity.
+      * simpl. simpl in WFb. rewrite WFb. reflexivity.
+      * intros en i. simpl map. apply node_op_sem; assumption.
+  - simpl in SHa. apply shape_eqb_eq in SHa. subst sha.
+    pose proof (wf_val_wf_shape _ _ _ WFa) as WS.
+    rewrite binop_array_left with (k := k) by exact OK.
+    rewrite <- (node_op_kind o k) by exact KO.
+    apply elementwise_pointwise_result; auto.
+    + apply tc_ok; exact OK.
+    + simpl. rewrite shape_eqb_refl, SHb. reflexivity.
+    + simpl. simpl in WFa. rewrite WFa, WFb. reflexivity.
+    + intros en i. simpl map. apply node_op_sem; assumption.
+Qed.
+Lemma try_method_needs_kind o k v w :
+  pyop_operand_kind o = Some k -> has_kind k v && has_kind k w = false ->
+  try_method v (lname o) [w] = Err NotImplementedErr /\
+  try_method v (rname o) [w] = Err NotImplementedErr.
+Proof.
+  intros Hk H.
+  destruct o; simpl in Hk; inversion Hk; subst k; clear Hk;
+  destruct v as [[]|[] []]; destruct w as [[]|[] []];
+  simpl in H; try discriminate; split; reflexivity.
+Qed.
+
+(* a boolean-valued operand where an integer-valued one is required (or vice
+   versa), in an arithmetic / ordering / logical operator form: TypeError *)
+Theorem binop_ill_typed_rejected o same a b k :
+  pyop_operand_kind o = Some k ->
+  has_kind k a && has_kind k b = false ->
+  is_builtin (class_of a) && is_builtin (class_of b) = false ->
+  py_binop o same a b = Err TypeError.
+Proof.
+  intros Hk H NB. unfold py_binop. rewrite NB.
+  destruct (try_method_needs_kind o k a b Hk H) as [F _].
+  rewrite andb_comm in H.
+  destruct (try_method_needs_kind o k b a Hk H) as [_ R].
+  destruct (is_compare o) eqn:IC.
+  - unfold py_compare. rewrite F, R.
+    destruct (proper_subclass (class_of b) (class_of a)); simpl;
+      destruct o; simpl in Hk; try discriminate; reflexivity.
+  - unfold py_arith. rewrite F, R. simpl.
+    destruct (pycls_eqb (class_of a) (class_of b)); reflexivity.
+Qed.
+
+(* equal sorts, different shapes: ValueError (all operator forms, == and != included) *)
+Theorem binop_shape_mismatch_rejected o same ka sha da kb shb db k :
+  operands_ok o k (VA ka sha da) (VA kb shb db) = true ->
+  shape_eqb shb sha = false ->
+  py_binop o same (VA ka sha da) (VA kb shb db) = Err ValueError.
+Proof.
+  intros OK SH. rewrite binop_array_left with (k := k) by exact OK.
+  unfold elementwise. rewrite (tc_ok _ _ _ _ OK). simpl. rewrite shape_eqb_refl, SH. reflexivity.
+Qed.
+(* ------------------------------------------------------------------ ~a, -a *)
+
+Theorem unop_pointwise u k sh d :
+  k = unop_kind u -> wf_val (VA k sh d) = true ->
+  pointwise_result (py_unop u (VA k sh d)) k sh (fun en i => unop_sem u (value_at en i (VA k sh d))).
+Proof.
+  intros Hk WF. pose proof (wf_val_wf_shape _ _ _ WF) as WS.
+  destruct u; simpl in Hk; subst k.
+  - replace (py_unop UInvert (VA KB sh d)) with (elementwise NOT sh [VA KB sh d])
+      by (destruct sh; reflexivity).
+    apply (elementwise_pointwise_result NOT sh [VA KB sh d]); auto.
+    + simpl. rewrite shape_eqb_refl. reflexivity.
+    + simpl. simpl in WF. rewrite WF. reflexivity.
+  - replace (py_unop UNeg (VA KI sh d)) with (elementwise NEG sh [VA KI sh d])
+      by (destruct sh; reflexivity).
+    apply (elementwise_pointwise_result NEG sh [VA KI sh d]); auto.
+    + simpl. rewrite shape_eqb_refl. reflexivity.
+    + simpl. simpl in WF. rewrite WF. reflexivity.
+Qed.
+
+Theorem unop_ill_typed_rejected u a :
+  has_kind (unop_kind u) a = false -> is_builtin (class_of a) = false ->
+  py_unop u a = Err TypeError.
+Proof.
+  destruct u; destruct a as [[]|[] []]; simpl; intros H NB; try discriminate; reflexivity.
+Qed.
+
+(* ------------------------------------------------------------ then / cond *)
+
+
+Lemma ni_to_typeerror_idem r : ni_to_typeerror (ni_to_typeerror r) = ni_to_typeerror r.
+Proof. destruct r as [v|[]]; reflexivity. Qed.
+
+Lemma fn_then_idem x y : ni_to_typeerror (fn_then x y) = fn_then x y.
+Proof.
+  unfold fn_then. destruct (bool_array_shape x), (bool_array_shape y); apply ni_to_typeerror_idem.
+Qed.
+
+Lemma fn_cond_idem c t f : ni_to_typeerror (fn_cond c t f) = fn_cond c t f.
+Proof.
+  unfold fn_cond. destruct (bool_array_shape c), (int_array_shape t), (int_array_shape f);
+    apply ni_to_typeerror_idem.
+Qed.
+
+(* x.then(y) is then(x, y); c.cond(t, f) is cond(c, t, f) *)
+Theorem then_method_is_function self y :
+  bool_class self = true -> call_method self m_then [y] = fn_then self y.
+Proof.
+  destruct self as [[]|[] []]; simpl; intros H; try discriminate; try reflexivity;
+  unfold call_method; simpl; unfold expr_then;
+  (destruct y as [[]|[] []]; simpl; try reflexivity; rewrite ?fn_then_idem; reflexivity).
+Qed.
+
+Theorem cond_method_is_function self t f :
+  bool_class self = true -> call_method self m_cond [t; f] = fn_cond self t f.
+Proof.
+  destruct self as [[]|[] []]; simpl; intros H; try discriminate; try reflexivity;
+  unfold call_method; simpl; unfold expr_cond;
+  (destruct t as [[]|[] []]; destruct f as [[]|[] []]; simpl; try reflexivity;
+   rewrite ?fn_cond_idem; reflexivity).
+Qed.
+
+Lemma first_shape_wf l sh : first_shape l = Some sh -> forallb wf_val l = true -> wf_shape sh.
+Proof.
+  induction l as [|v l IH]; simpl; intros FS WF; try discriminate.
+  apply andb_true_iff in WF; destruct WF as [Wv WF].
+  destruct v as [e|k s d].
+  - apply IH; assumption.
+  - inversion FS; subst. apply (wf_val_wf_shape k sh d). exact Wv.
+Qed.
+
+Lemma ni_te_elementwise o sh ops :
+  elem_typecheck o ops = Some true ->
+  ni_to_typeerror (elementwise o sh ops) = elementwise o sh ops.
+Proof. intros TC. apply if_ni_not_ni. apply elementwise_not_ni; exact TC. Qed.
+
+Theorem then_pointwise x y sh :
+  has_kind KB x && has_kind KB y = true ->
+  first_shape [x; y] = Some sh ->
+  forallb wf_val [x; y] = true -> forallb (shape_ok sh) [x; y] = true ->
+  pointwise_result (fn_then x y) KB sh
+    (fun en i => then_sem (value_at en i x) (value_at en i y)).
+Proof.
+  intros K FS WF SH.
+  apply andb_true_iff in K; destruct K as [Kx Ky].
+  assert (TC : elem_typecheck IMP [x; y] = Some true) by (simpl in *; rewrite Kx, Ky; reflexivity).
+  pose proof (first_shape_wf _ _ FS WF) as WS.
+  assert (E : fn_then x y = elementwise IMP sh [x; y]).
+  { unfold fn_then.
+    destruct x as [ex|[] sx dx]; simpl in *; try discriminate.
+    - destruct y as [ey|[] sy dy]; simpl in *; try discriminate.
+      inversion FS; subst. apply ni_te_elementwise; exact TC.
+    - inversion FS; subst. apply ni_te_elementwise; exact TC. }
+  rewrite E. apply (elementwise_pointwise_result IMP sh [x; y]); auto.
+Qed.
+
+Theorem then_ill_typed_rejected x y :
+  has_kind KB x && has_kind KB y = false -> fn_then x y = Err TypeError.
+Proof.
+  destruct x as [[]|[] []]; destruct y as [[]|[] []]; simpl; intros H; try discriminate; reflexivity.
+Qed.
+
+Theorem then_shape_mismatch_rejected x y sh :
+  has_kind KB x && has_kind KB y = true ->
+  first_shape [x; y] = Some sh -> forallb (shape_ok sh) [x; y] = false ->
+  fn_then x y = Err ValueError.
+Proof.
+  intros K FS SH.
+  apply andb_true_iff in K; destruct K as [Kx Ky].
+  assert (TC : elem_typecheck IMP [x; y] = Some true) by (simpl in *; rewrite Kx, Ky; reflexivity).
+  assert (E : fn_then x y = elementwise IMP sh [x; y]).
+  { unfold fn_then.
+    destruct x as [ex|[] sx dx]; simpl in *; try discriminate.
+    - destruct y as [ey|[] sy dy]; simpl in *; try discriminate.
+      inversion FS; subst. apply ni_te_elementwise; exact TC.
+    - inversion FS; subst. apply ni_te_elementwise; exact TC. }
+  rewrite E. unfold elementwise. rewrite TC, SH. reflexivity.
+Qed.
+
+Lemma fn_cond_elementwise c t f sh :
+  has_kind KB c && has_kind KI t && has_kind KI f = true ->
+  first_shape [c; t; f] = Some sh ->
+  fn_cond c t f = elementwise IF sh [c; t; f].
+Proof.
+  intros K FS.
+  apply andb_true_iff in K; destruct K as [K Kf]. apply andb_true_iff in K; destruct K as [Kc Kt].
+  assert (TC : forall s, ni_to_typeerror (elementwise IF s [c; t; f]) = elementwise IF s [c; t; f]).
+  { intros s. apply ni_te_elementwise. simpl in *. rewrite Kc, Kt, Kf. reflexivity. }
+  unfold fn_cond.
+  destruct c as [ec|[] sc dc]; simpl in Kc; try discriminate;
+  destruct t as [et|[] st dt]; simpl in Kt; try discriminate;
+  destruct f as [ef|[] sf df]; simpl in Kf; try discriminate;
+  simpl in FS; inversion FS; subst; simpl; apply TC.
+Qed.
+
+Theorem cond_pointwise c t f sh :
+  has_kind KB c && has_kind KI t && has_kind KI f = true ->
+  first_shape [c; t; f] = Some sh ->
+  forallb wf_val [c; t; f] = true -> forallb (shape_ok sh) [c; t; f] = true ->
+  pointwise_result (fn_cond c t f) KI sh
+    (fun en i => cond_sem (value_at en i c) (value_at en i t) (value_at en i f)).
+Proof.
+  intros K FS WF SH.
+  rewrite (fn_cond_elementwise c t f sh K FS).
+  apply andb_true_iff in K; destruct K as [K Kf]. apply andb_true_iff in K; destruct K as [Kc Kt].
+  pose proof (first_shape_wf _ _ FS WF) as WS.
+  apply (elementwise_pointwise_result IF sh [c; t; f]); auto.
+  simpl in *. rewrite Kc, Kt, Kf. reflexivity.
+Qed.
+
+Theorem cond_ill_typed_rejected c t f :
+  has_kind KB c && has_kind KI t && has_kind KI f = false -> fn_cond c t f = Err TypeError.
+Proof.
+  destruct c as [[]|[] []]; destruct t as [[]|[] []]; destruct f as [[]|[] []];
+    simpl; intros H; try discriminate; reflexivity.
+Qed.
+
+Theorem cond_shape_mismatch_rejected c t f sh :
+  has_kind KB c && has_kind KI t && has_kind KI f = true ->
+  first_shape [c; t; f] = Some sh -> forallb (shape_ok sh) [c; t; f] = false ->
+  fn_cond c t f = Err ValueError.
+Proof.
+  intros K FS SH. rewrite (fn_cond_elementwise c t f sh K FS).
+  apply andb_true_iff in K; destruct K as [K Kf]. apply andb_true_iff in K; destruct K as [Kc Kt].
+  unfold elementwise.
+  replace (elem_typecheck IF [c; t; f]) with (Some true) by (simpl in *; rewrite Kc, Kt, Kf; reflexivity).
+  rewrite SH. reflexivity.
+Qed.
